@@ -8,9 +8,34 @@ EXTRA = {
             ("SafeC.copyLoop_safe", "SafeC.Proofs.CopyLoop", "lemma", "the bumper copy loop shared by the str*/wcs* copy family, any placement and content")],
     "C02": [("SafeC.copyLoop_disjoint", "SafeC.Proofs.CopyFunctional", "lemma", "copy loop reads only the source string / first slen cells"),
             ("SafeC.copyLoop_disjoint_bounded", "SafeC.Proofs.CopyFunctional", "lemma", "bounded variant")],
+    "C06": [("SafeC.Props.C06Mem.memcpy_s_C06", "SafeC.Props.C06Mem", "full", "memcpy_s, valid arguments, non-overlapping operands: EOK and dest[0..slen) = old src[0..slen), nothing else changed"),
+            ("SafeC.Props.C06Mem.memmove_s_C06", "SafeC.Props.C06Mem", "full", "memmove_s, valid arguments, any placement: EOK and the exact copy"),
+            ("SafeC.Props.C06Mem.memcpy16_s_C06", "SafeC.Props.C06Mem", "full", "memcpy16_s, valid arguments, non-overlapping: exact copy of slen 16-bit elements"),
+            ("SafeC.Props.C06Mem.memcpy32_s_C06", "SafeC.Props.C06Mem", "full", "memcpy32_s, valid arguments, non-overlapping: exact copy of slen 32-bit elements"),
+            ("SafeC.Props.C06Mem.wmemcpy_s_C06", "SafeC.Props.C06Mem", "full", "wmemcpy_s, valid arguments, non-overlapping: exact copy of count wchar_t elements")],
     "C05": [("SafeC.strncpyG_two_handlers", "SafeC.Proofs.CopyWrappers", "witness", "for max > RSIZE_MAX_STR the inner strnlen_s reports too: why the wrappers need max <= RSIZE_MAX_STR")],
-    "C07": [("SafeC.copyLoop_overlap", "SafeC.Proofs.CopyOverlap", "lemma", "the loop reaches the bumper after exactly g iterations")],
+    "C07": [("SafeC.copyLoop_overlap", "SafeC.Proofs.CopyOverlap", "lemma", "the loop reaches the bumper after exactly g iterations"),
+            ("SafeC.Props.C07Mem.mem_prim_move_C07", "SafeC.Props.C07Mem", "full", "mem_prim_move (bytes, 64-bit word variant) = memmove for every length, overlap and alignment"),
+            ("SafeC.Props.C07Mem.mem_prim_move_elems_C07", "SafeC.Props.C07Mem", "full", "mem_prim_move8/16/32 = memmove on elements for every length and overlap"),
+            ("SafeC.Props.C07Mem.memmove_s_C07", "SafeC.Props.C07Mem", "full", "memmove_s, valid arguments, any overlap: EOK and exactly the bytes a copy through a temporary would give"),
+            ("SafeC.Props.C07Mem.memmove_s_C07_bos", "SafeC.Props.C07Mem", "full", "memmove_s with known object sizes (destbos/srcbos arbitrary, dmax and slen within them): exact memmove"),
+            ("SafeC.Props.C07Mem.memmove16_s_C07", "SafeC.Props.C07Mem", "full", "memmove16_s, valid arguments, any overlap: memmove semantics"),
+            ("SafeC.Props.C07Mem.memmove32_s_C07", "SafeC.Props.C07Mem", "full", "memmove32_s, valid arguments, any overlap: memmove semantics"),
+            ("SafeC.Props.C07Mem.wmemmove_s_C07", "SafeC.Props.C07Mem", "full", "wmemmove_s, valid arguments (dlen*4 <= RSIZE_MAX_WMEM: byte size against element limit), any overlap: memmove semantics"),
+            ("SafeC.Props.C07Mem.memcpy_s_C07_overlap", "SafeC.Props.C07Mem", "full", "memcpy_s rejects every true overlap with ESOVRLP, dest zeroed, one mem-handler event"),
+            ("SafeC.moveFwdAlign_ok", "SafeC.Proofs.MemMove", "lemma", "forward alignment prologue of mem_prim_move: 1 <= tsp <= len in every branch"),
+            ("SafeC.moveBwdAlign_ok", "SafeC.Proofs.MemMove", "lemma", "backward alignment prologue: tsp = sp % 8 is non-zero when it is chosen (bit-level lemma or_xor_mod8)"),
+            ("SafeC.wordsFwd_ok", "SafeC.Proofs.MemMove", "lemma", "8-byte word loop, ascending, induction on the word count"),
+            ("SafeC.wordsBwd_ok", "SafeC.Proofs.MemMove", "lemma", "8-byte word loop, descending")],
     "C08": [("SafeC.nullSlack_ok", "SafeC.Lemmas", "lemma", "both slack strategies (memset > 0x20, byte loop) zero the whole tail")],
+    "C18": [("SafeC.setPrologue_ok", "SafeC.Proofs.MemSet", "lemma", "mem_prim_set alignment prologue: k <= count bytes stored, stops aligned or exhausted"),
+            ("SafeC.setBlocks_ok", "SafeC.Proofs.MemSet", "lemma", "mem_prim_set 16-way unrolled body, induction on the block count: q*128 bytes"),
+            ("SafeC.setWords_ok", "SafeC.Proofs.MemSet", "lemma", "mem_prim_set case-15..1 chain: k qwords"),
+            ("SafeC.setTail_ok", "SafeC.Proofs.MemSet", "lemma", "mem_prim_set byte tail"),
+            ("SafeC.setElemBlocks_ok", "SafeC.Proofs.MemSet", "lemma", "mem_prim_set16/32 unrolled body, induction on the block count"),
+            ("SafeC.setBodyG_spec", "SafeC.Proofs.Erase", "lemma", "the shared 'n > dmax ? report, clamp : set' tail of memset_s/16/32: complete outcome"),
+            ("SafeC.memset_s_spec", "SafeC.Proofs.Erase", "lemma", "memset_s: complete outcome of every call (success iff, fill on success, handler + clamp on failure)"),
+            ("SafeC.strzero_s_spec", "SafeC.Proofs.Erase", "lemma", "strzero_s: complete outcome of every call, both slack configurations")],
 }
 
 
